@@ -359,8 +359,8 @@ def check_case(case):
 # ---- histories on ONE compiled query: the bound concerns each application, whatever happened to
 # the query object before (a run that raised, a find_one, an abandoned iterator)
 HIST_OPS = ["full_at_limit", "full_too_deep", "find_one_at_limit", "partial_1", "partial_3", "full_cyclic",
-            "full_shallow", "find_one_too_deep"]
-HIST_QUERIES = ["$..*", "$..a", "$[?@..a]", "$..[?@..a]"]
+            "full_shallow", "find_one_too_deep", "full_same_object_grown"]
+HIST_QUERIES = ["$..*", "$..a", "$[?@..a]", "$..[?@..a]", "$[?$..a]", "$[?count($..*) > 0]"]
 
 
 def hist_doc(op, limit, wrap):
@@ -380,9 +380,37 @@ def hist_doc(op, limit, wrap):
 def run_history(limit, nd, query, ops):
     """-> None | violation; every application is judged like an application of a fresh query"""
     cq = env(limit, nd).compile(query)
-    wrap = query.startswith("$[?")
+    wrap = query.startswith("$[?@")
+    # ONE document object that the caller keeps and grows in place: one level deeper every time
+    # the operation full_same_object_grown occurs
+    # (starting two levels below the limit, so that complete runs within the limit come first)
+    rootq = (not wrap) and query.startswith("$[?")
+    e0 = max(limit - 2, 1)
+    c = e0 - (1 if rootq else 0)
+    inner = chain(c, "alt", "scalar") if c > 0 else 7
+    same = {"doc": [inner, 0] if (wrap or rootq) else inner, "n": e0}
     for i, op in enumerate(ops):
-        doc, expect_ok = hist_doc(op, limit, wrap)
+        if op == "full_same_object_grown":
+            # wrap the innermost scalar once more: find the deepest container and nest it
+            cur = same["doc"]
+            while True:
+                nxt = None
+                for v in (cur.values() if isinstance(cur, dict) else cur):
+                    if isinstance(v, (dict, list)):
+                        nxt = v
+                        break
+                if nxt is None:
+                    break
+                cur = nxt
+            if isinstance(cur, dict):
+                k = next(iter(cur))
+                cur[k] = [cur[k]]
+            else:
+                cur[0] = {"a": cur[0]}
+            same["n"] += 1
+            doc, expect_ok = same["doc"], same["n"] <= limit
+        else:
+            doc, expect_ok = hist_doc(op, limit, wrap)
         case = {"history": list(ops), "limit": limit, "nondeterministic": nd, "query": query}
         with choice.controlled(modules()) as ctl:
             ctl.chooser.start([])
